@@ -269,6 +269,17 @@ class PState:
         return s
 
 
+def _pos_args(call):
+    """Positional arguments with `*(a, b, c)` / `*[a, b]` literals spliced in (after a tuple-returning helper was inlined)."""
+    out = []
+    for a in call.args:
+        if isinstance(a, ast.Starred) and isinstance(a.value, (ast.Tuple, ast.List)):
+            out += list(a.value.elts)
+        else:
+            out.append(a)
+    return out
+
+
 class Unfolder:
     def __init__(self, classes, module_funcs=None, inline=True):
         self.classes = classes          # class name -> {method name: ast.FunctionDef}
@@ -522,11 +533,13 @@ class Unfolder:
         params = [a.arg for a in hfn.args.posonlyargs + hfn.args.args]
         env = {}
         awaited = isinstance(parent, ast.Await)
-        st.events.append(Event("call", func=text(call.func), args=[text(a) for a in call.args] + ["%s=%s" % (k.arg, text(k.value)) for k in call.keywords],
+        st.events.append(Event("call", func=text(call.func), args=[text(a) for a in _pos_args(call)] + ["%s=%s" % (k.arg, text(k.value)) for k in call.keywords],
                                conds=st.conds, awaited=awaited, node=call, origin=("@inlined",), **self._c(ctx)))
         closure = recv is None
         if closure:
             env.update(st.env.get("@closure:" + call.func.id) or st.env)
+        elif recv == "@module":
+            pass
         elif params and params[0] in ("self", "cls"):
             if recv != "self":
                 env["self"] = ast.parse(recv, mode="eval").body
@@ -534,8 +547,17 @@ class Unfolder:
         defaults = hfn.args.defaults
         for p, d in zip(params[len(params) - len(defaults):], defaults):
             env[p] = d
-        for p, a in zip(params, call.args):
+        for p, a in zip(params, _pos_args(call)):
             env[p] = a
+            if isinstance(a, ast.Lambda) and not a.args.vararg and not a.args.kwarg:
+                # a lambda handed to the helper is a nested function with a single return, closed over the caller's state
+                d = ast.FunctionDef(name=p, args=a.args, body=[ast.Return(value=a.body)], decorator_list=[], returns=None, type_comment=None)
+                ast.copy_location(d, a)
+                ast.fix_missing_locations(d)
+                env["@def:" + p] = d
+                env["@closure:" + p] = dict(st.env)
+                env[p] = None
+                continue
             if isinstance(a, ast.Name) and ("@def:" + a.id) in st.env:
                 env["@def:" + p] = st.env["@def:" + a.id]
                 env["@closure:" + p] = st.env.get("@closure:" + a.id) or dict(st.env)
@@ -623,6 +645,9 @@ class Unfolder:
             d = st.env.get("@def:" + f.id)
             if d is not None:
                 return (cls, d, None)
+            d = self.module_funcs.get(f.id)
+            if d is not None and f.id not in st.env:
+                return (cls, d, "@module")
         return None
 
     def _record_calls(self, expr, st, ctx, awaited_top=False):
@@ -645,7 +670,7 @@ class Unfolder:
             return
         walk(expr, awaited_top)
         for c, aw in calls:
-            args = [text(a) for a in c.args] + ["%s=%s" % (k.arg, text(k.value)) for k in c.keywords]
+            args = [text(a) for a in _pos_args(c)] + ["%s=%s" % (k.arg, text(k.value)) for k in c.keywords]
             st.events.append(Event("call", func=text(c.func), args=args, conds=st.conds, awaited=aw, node=c, **self._c(ctx)))
             c._bound = True
 
@@ -832,6 +857,9 @@ class PyModel:
                 if isinstance(n, ast.ClassDef):
                     cl[n.name] = {m.name: m for m in n.body if isinstance(m, (ast.FunctionDef, ast.AsyncFunctionDef))}
             self.classes[mod] = cl
+            # module-level private helpers (def _name(..)) are inlined like private methods
+            self.funcs[mod] = {n.name: n for n in tree.body if isinstance(n, (ast.FunctionDef, ast.AsyncFunctionDef))
+                               and n.name.startswith("_") and not n.name.startswith("__")}
         self._cache = {}
 
     def paths(self, mod, cls, meth, inline=True):
@@ -842,7 +870,7 @@ class PyModel:
             if fn is None:
                 self._cache[k] = None
             else:
-                u = Unfolder(self.classes.get(mod, {}), inline=inline)
+                u = Unfolder(self.classes.get(mod, {}), self.funcs.get(mod, {}), inline=inline)
                 self._cache[k] = u.paths(cls, fn)
         return self._cache[k]
 
